@@ -396,6 +396,9 @@ func chunkUp(r *rand.Rand, stream []byte) []LChunk {
 		}
 		cs = append(cs, LChunk{Dt: dts[r.Intn(len(dts))], Bytes: cp(stream[i : i+n])})
 		i += n
+		if r.Intn(25) == 0 { // a delivery without bytes: nothing arrives, but its time passes
+			cs = append(cs, LChunk{Dt: dts[r.Intn(len(dts))], Bytes: hx.B{}})
+		}
 	}
 	return cs
 }
